@@ -7,40 +7,25 @@ namespace MuduoVerif.Poller
 open MuduoVerif.Gen.Poller
 
 /-- what the invariant says about one channel: its object, its `channels_` slot, its kernel entry -/
-def EpLocal (blind : Bool) (ch : Chan) (cm : Option Nat) (kn : Option Nat) (c : Nat) : Prop :=
+def EpLocal (ch : Chan) (cm : Option Nat) (kn : Option Nat) (c : Nat) : Prop :=
   if ch.added = true then
     cm = some c ∧
-      ((ch.index = kAdded ∧ kn = some ch.events ∧ (ch.events = 0 → blind = true)) ∨
+      ((ch.index = kAdded ∧ kn = some ch.events ∧ ch.events ≠ 0) ∨
        (ch.index = kDeleted ∧ ch.events = 0 ∧ kn = none))
   else ch.index = kNew ∧ ch.events = 0 ∧ cm = none ∧ kn = none
 
 structure EpStruct (s : State) : Prop where
-  loc : ∀ c, EpLocal s.blind (s.chans c) (s.cmap (fdOf c)) (s.kernel (fdOf c)) c
+  loc : ∀ c, EpLocal (s.chans c) (s.cmap (fdOf c)) (s.kernel (fdOf c)) c
   other : ∀ fd, (∀ c, fd ≠ fdOf c) → s.cmap fd = none ∧ s.kernel fd = none
 
-theorem EpLocal.mono {b b' : Bool} {ch cm kn c} (h : EpLocal b ch cm kn c) (hb : b = true → b' = true) :
-    EpLocal b' ch cm kn c := by
-  unfold EpLocal at h ⊢
-  split
-  · rename_i ha
-    rw [if_pos ha] at h
-    obtain ⟨h1, h2⟩ := h
-    refine ⟨h1, ?_⟩
-    rcases h2 with ⟨a, b1, c1⟩ | h2
-    · exact .inl ⟨a, b1, fun e => hb (c1 e)⟩
-    · exact .inr h2
-  · rename_i ha
-    rw [if_neg ha] at h
-    exact h
-
-theorem EpLocal.added_intro {b : Bool} {ch : Chan} {cm kn : Option Nat} {c : Nat} (ha : ch.added = true)
+theorem EpLocal.added_intro {ch : Chan} {cm kn : Option Nat} {c : Nat} (ha : ch.added = true)
     (hcm : cm = some c)
-    (h : (ch.index = kAdded ∧ kn = some ch.events ∧ (ch.events = 0 → b = true)) ∨
-       (ch.index = kDeleted ∧ ch.events = 0 ∧ kn = none)) : EpLocal b ch cm kn c := by
+    (h : (ch.index = kAdded ∧ kn = some ch.events ∧ ch.events ≠ 0) ∨
+       (ch.index = kDeleted ∧ ch.events = 0 ∧ kn = none)) : EpLocal ch cm kn c := by
   unfold EpLocal; rw [if_pos ha]; exact ⟨hcm, h⟩
 
-theorem EpLocal.unreg_intro {b : Bool} {ch : Chan} {cm kn : Option Nat} {c : Nat} (ha : ch.added = false)
-    (h : ch.index = kNew ∧ ch.events = 0 ∧ cm = none ∧ kn = none) : EpLocal b ch cm kn c := by
+theorem EpLocal.unreg_intro {ch : Chan} {cm kn : Option Nat} {c : Nat} (ha : ch.added = false)
+    (h : ch.index = kNew ∧ ch.events = 0 ∧ cm = none ∧ kn = none) : EpLocal ch cm kn c := by
   unfold EpLocal; rw [if_neg (by simp [ha])]; exact h
 
 /-- an operation on channel `c` touches only `c`'s object, map slot and kernel entry -/
@@ -48,22 +33,20 @@ theorem EpStruct.local {s t : State} (h : EpStruct s) (c : Nat)
     (hch : ∀ x, x ≠ c → (t.chans x).events = (s.chans x).events ∧ (t.chans x).index = (s.chans x).index ∧
       (t.chans x).added = (s.chans x).added)
     (hcm : ∀ fd, fd ≠ fdOf c → t.cmap fd = s.cmap fd) (hkn : ∀ fd, fd ≠ fdOf c → t.kernel fd = s.kernel fd)
-    (hb : s.blind = true → t.blind = true)
-    (hc : EpLocal t.blind (t.chans c) (t.cmap (fdOf c)) (t.kernel (fdOf c)) c) : EpStruct t := by
+    (hc : EpLocal (t.chans c) (t.cmap (fdOf c)) (t.kernel (fdOf c)) c) : EpStruct t := by
   refine ⟨?_, ?_⟩
   · intro x
     by_cases hx : x = c
     · subst hx; exact hc
     · have hfd : fdOf x ≠ fdOf c := fun e => hx (by unfold fdOf at e; omega)
       rw [hcm _ hfd, hkn _ hfd]
-      have := (h.loc x).mono hb
+      have := h.loc x
       obtain ⟨e1, e2, e3⟩ := hch x hx
       unfold EpLocal at this ⊢
       rw [e1, e2, e3]; exact this
   · intro fd hfd
     rw [hcm fd (hfd c), hkn fd (hfd c)]
     exact h.other fd hfd
-
 
 /-! ### `epoll_ctl` on the kernel's interest list -/
 
@@ -87,8 +70,16 @@ theorem ctl_mod {s : State} {c : Nat} {m : Nat} (hk : s.kernel (fdOf c) = some m
 
 /-! ### `EPollPoller::updateChannel` -/
 
+theorem epollUpdate_new_skip {s : State} {c : Nat} (hi : (s.chans c).index = kNew) (hc : s.cmap (fdOf c) = none)
+    (he : (s.chans c).events = 0) :
+    epollUpdate s c = { s with
+      cmap := fun x => if x = fdOf c then some c else s.cmap x
+      chans := fun x => if x = c then { s.chans c with index := kDeleted } else s.chans x } := by
+  simp [epollUpdate, epAddBranch, epIsNew, hi, hc, he, epNewSkips, isNoneEvent, kNoneEvent, setIndex, setCmap,
+    epIndexAfterNewSkip]
+
 theorem epollUpdate_new {s : State} {c : Nat} (hi : (s.chans c).index = kNew) (hc : s.cmap (fdOf c) = none)
-    (hk : s.kernel (fdOf c) = none) :
+    (he : (s.chans c).events ≠ 0) (hk : s.kernel (fdOf c) = none) :
     epollUpdate s c = { s with
       cmap := fun x => if x = fdOf c then some c else s.cmap x
       chans := fun x => if x = c then { s.chans c with index := kAdded } else s.chans x
@@ -96,7 +87,7 @@ theorem epollUpdate_new {s : State} {c : Nat} (hi : (s.chans c).index = kNew) (h
       kernel := fun x => if x = fdOf c then some (s.chans c).events else s.kernel x } := by
   have hk' : (setIndex (setCmap s (fdOf c) (some c)) c epIndexAfterAdd).kernel (fdOf c) = none := hk
   simp only [epollUpdate, epAddBranch, epIsNew, hi, hc, epCtlAdd, true_or, if_true, ne_eq, not_true_eq_false,
-    if_false, ctl_add hk']
+    if_false, ctl_add hk', epNewSkips, isNoneEvent, kNoneEvent, he]
   simp [setIndex, setCmap, epIndexAfterAdd]
 
 
@@ -177,22 +168,26 @@ theorem epStruct_update {s : State} (h : EpStruct s) (c : Nat) (k : OpKind) :
   have hSk : S.kernel = s.kernel := by subst hS; rfl
   have hSdead : S.dead = s.dead := by subst hS; rfl
   have hSout : S.out = s.out := by subst hS; rfl
-  have hSb : S.blind = (s.blind || blindUpdate s c k) := by subst hS; rfl
-  have hmono : s.blind = true → S.blind = true := by intro e; rw [hSb, e]; rfl
   have hfd : ∀ x, x ≠ c → fdOf x ≠ fdOf c := fun x hx e => hx (by unfold fdOf at e; omega)
   cases ha : (s.chans c).added with
   | false =>
     rw [if_neg (by simp [ha])] at hl
     obtain ⟨hi, he, hcm, hkn⟩ := hl
-    rw [epollUpdate_new (by rw [hSc]; exact hi) (by rw [hScm]; exact hcm) (by rw [hSk]; exact hkn)]
-    refine ⟨h.local c ?_ ?_ ?_ hmono ?_, hSdead, ⟨_, by rw [hSout], by simp [Ev.isCtlOk]⟩⟩
-    · intro x hx; simp [hx, hSd x hx]
-    · intro fd hfd'; simp [hfd', hScm]
-    · intro fd hfd'; simp [hfd', hSk]
-    · refine EpLocal.added_intro (by simp [hSc]) (by simp) (.inl ⟨by simp, by simp, ?_⟩)
-      intro h0
-      simp only [if_true, hSc] at h0
-      simp [hSb, blindUpdate, ha, h0, isNoneEvent, kNoneEvent]
+    by_cases hne : newEvents k (s.chans c).events = 0
+    · rw [epollUpdate_new_skip (by rw [hSc]; exact hi) (by rw [hScm]; exact hcm) (by rw [hSc]; exact hne)]
+      refine ⟨h.local c ?_ ?_ ?_ ?_, hSdead, ⟨[], by simp [hSout], by simp⟩⟩
+      · intro x hx; simp [hx, hSd x hx]
+      · intro fd hfd'; simp [hfd', hScm]
+      · intro fd hfd'; simp [hSk]
+      · exact EpLocal.added_intro (by simp [hSc]) (by simp)
+          (.inr ⟨by simp, by simp [hSc, hne], by simp [hSk, hkn]⟩)
+    · rw [epollUpdate_new (by rw [hSc]; exact hi) (by rw [hScm]; exact hcm) (by rw [hSc]; exact hne)
+        (by rw [hSk]; exact hkn)]
+      refine ⟨h.local c ?_ ?_ ?_ ?_, hSdead, ⟨_, by rw [hSout], by simp [Ev.isCtlOk]⟩⟩
+      · intro x hx; simp [hx, hSd x hx]
+      · intro fd hfd'; simp [hfd', hScm]
+      · intro fd hfd'; simp [hfd', hSk]
+      · exact EpLocal.added_intro (by simp [hSc]) (by simp) (.inl ⟨by simp, by simp, by simpa [hSc] using hne⟩)
   | true =>
     rw [if_pos ha] at hl
     obtain ⟨hcm, hl⟩ := hl
@@ -200,22 +195,22 @@ theorem epStruct_update {s : State} (h : EpStruct s) (c : Nat) (k : OpKind) :
     · by_cases hne : newEvents k (s.chans c).events = 0
       · rw [epollUpdate_added_del (by rw [hSc]; exact hi) (by rw [hScm]; exact hcm) (by rw [hSc]; exact hne)
           (by rw [hSk]; exact hkn)]
-        refine ⟨h.local c ?_ ?_ ?_ hmono ?_, hSdead, ⟨_, by rw [hSout], by simp [Ev.isCtlOk]⟩⟩
+        refine ⟨h.local c ?_ ?_ ?_ ?_, hSdead, ⟨_, by rw [hSout], by simp [Ev.isCtlOk]⟩⟩
         · intro x hx; simp [hx, hSd x hx]
         · intro fd hfd'; simp [hScm]
         · intro fd hfd'; simp [hfd', hSk]
         · exact EpLocal.added_intro (by simp [hSc]) (by simp [hScm, hcm]) (.inr ⟨by simp, by simp [hSc, hne], by simp⟩)
       · rw [epollUpdate_added_mod (by rw [hSc]; exact hi) (by rw [hScm]; exact hcm) (by rw [hSc]; exact hne)
           (by rw [hSk]; exact hkn)]
-        refine ⟨h.local c ?_ ?_ ?_ hmono ?_, hSdead, ⟨_, by rw [hSout], by simp [Ev.isCtlOk]⟩⟩
+        refine ⟨h.local c ?_ ?_ ?_ ?_, hSdead, ⟨_, by rw [hSout], by simp [Ev.isCtlOk]⟩⟩
         · intro x hx; simp [hSd x hx]
         · intro fd hfd'; simp [hScm]
         · intro fd hfd'; simp [hfd', hSk]
         · exact EpLocal.added_intro (by simp [hSc]) (by simp [hScm, hcm])
-            (.inl ⟨by simp [hSc, hi], by simp, fun e => absurd (by simpa [hSc] using e) hne⟩)
+            (.inl ⟨by simp [hSc, hi], by simp, by simpa [hSc] using hne⟩)
     · by_cases hne : newEvents k (s.chans c).events = 0
       · rw [epollUpdate_deleted_skip (by rw [hSc]; exact hi) (by rw [hScm]; exact hcm) (by rw [hSc]; exact hne)]
-        refine ⟨h.local c ?_ ?_ ?_ hmono ?_, hSdead, ⟨[], by simp [hSout], by simp⟩⟩
+        refine ⟨h.local c ?_ ?_ ?_ ?_, hSdead, ⟨[], by simp [hSout], by simp⟩⟩
         · intro x hx; simp [hSd x hx]
         · intro fd hfd'; simp [hScm]
         · intro fd hfd'; simp [hSk]
@@ -223,12 +218,12 @@ theorem epStruct_update {s : State} (h : EpStruct s) (c : Nat) (k : OpKind) :
             (.inr ⟨by simp [hSc, hi], by simp [hSc, hne], by simp [hSk, hkn]⟩)
       · rw [epollUpdate_deleted_add (by rw [hSc]; exact hi) (by rw [hScm]; exact hcm) (by rw [hSc]; exact hne)
           (by rw [hSk]; exact hkn)]
-        refine ⟨h.local c ?_ ?_ ?_ hmono ?_, hSdead, ⟨_, by rw [hSout], by simp [Ev.isCtlOk]⟩⟩
+        refine ⟨h.local c ?_ ?_ ?_ ?_, hSdead, ⟨_, by rw [hSout], by simp [Ev.isCtlOk]⟩⟩
         · intro x hx; simp [hx, hSd x hx]
         · intro fd hfd'; simp [hScm]
         · intro fd hfd'; simp [hfd', hSk]
         · exact EpLocal.added_intro (by simp [hSc]) (by simp [hScm, hcm])
-            (.inl ⟨by simp, by simp, fun e => absurd (by simpa [hSc] using e) hne⟩)
+            (.inl ⟨by simp, by simp, by simpa [hSc] using hne⟩)
 
 
 theorem epStruct_remove {s : State} (h : EpStruct s) (c : Nat) (ha : (s.chans c).added = true)
@@ -245,36 +240,33 @@ theorem epStruct_remove {s : State} (h : EpStruct s) (c : Nat) (ha : (s.chans c)
   have hSk : S.kernel = s.kernel := by subst hS; rfl
   have hSdead : S.dead = s.dead := by subst hS; rfl
   have hSout : S.out = s.out := by subst hS; rfl
-  have hSb : S.blind = s.blind := by subst hS; rfl
-  have hmono : s.blind = true → S.blind = true := by intro e; rw [hSb, e]
   rcases hl with ⟨hi, hkn, _⟩ | ⟨hi, _, hkn⟩
   · rw [epollRemove_added (by rw [hSc]; exact hi) (by rw [hScm]; exact hcm) (by rw [hSc]; exact he)
       (by rw [hSk]; exact hkn)]
-    refine ⟨h.local c ?_ ?_ ?_ hmono ?_, hSdead, ⟨_, by rw [hSout], by simp [Ev.isCtlOk]⟩⟩
+    refine ⟨h.local c ?_ ?_ ?_ ?_, hSdead, ⟨_, by rw [hSout], by simp [Ev.isCtlOk]⟩⟩
     · intro x hx; simp [hx, hSd x hx]
     · intro fd hfd'; simp [hfd', hScm]
     · intro fd hfd'; simp [hfd', hSk]
     · exact EpLocal.unreg_intro (by simp [hSc]) ⟨by simp, by simp [hSc, he], by simp, by simp⟩
   · rw [epollRemove_deleted (by rw [hSc]; exact hi) (by rw [hScm]; exact hcm) (by rw [hSc]; exact he)]
-    refine ⟨h.local c ?_ ?_ ?_ hmono ?_, hSdead, ⟨[], by simp [hSout], by simp⟩⟩
+    refine ⟨h.local c ?_ ?_ ?_ ?_, hSdead, ⟨[], by simp [hSout], by simp⟩⟩
     · intro x hx; simp [hx, hSd x hx]
     · intro fd hfd'; simp [hfd', hScm]
     · intro fd hfd'; simp [hSk]
     · exact EpLocal.unreg_intro (by simp [hSc]) ⟨by simp, by simp [hSc, he], by simp, by simp [hSk, hkn]⟩
 
 theorem EpStruct.congr {s t : State} (h : EpStruct s) (hc : t.cmap = s.cmap) (hk : t.kernel = s.kernel)
-    (hb : t.blind = s.blind)
     (he : ∀ c, (t.chans c).events = (s.chans c).events) (hi : ∀ c, (t.chans c).index = (s.chans c).index)
     (ha : ∀ c, (t.chans c).added = (s.chans c).added) : EpStruct t := by
   refine ⟨?_, ?_⟩
   · intro c
     have := h.loc c
     unfold EpLocal at this ⊢
-    rw [he, hi, ha, hc, hk, hb]; exact this
+    rw [he, hi, ha, hc, hk]; exact this
   · intro fd hfd; rw [hc, hk]; exact h.other fd hfd
 
 theorem EpStruct.frame {s t : State} (f : Frame s t) (h : EpStruct s) : EpStruct t :=
-  h.congr f.cmap f.kernel f.blind f.ev f.idx f.added
+  h.congr f.cmap f.kernel f.ev f.idx f.added
 
 theorem isCtlOk_clean {e : Ev} (h : e.isCtlOk = true) : e.isFailure = false := by
   cases e <;> simp_all [Ev.isCtlOk, Ev.isFailure, Ev.isCtlFailure, Ev.isAbort]
@@ -291,7 +283,7 @@ theorem epStruct_applyOp {s : State} (hbe : s.be = .epoll) (h : EpStruct s) (c :
     unfold report
     split
     · exact ⟨ht.struct, ht.dead, l, hl, fun e he => isCtlOk_clean (hok e he)⟩
-    · refine ⟨ht.struct.congr rfl rfl rfl (fun _ => rfl) (fun _ => rfl) (fun _ => rfl), ht.dead,
+    · refine ⟨ht.struct.congr rfl rfl (fun _ => rfl) (fun _ => rfl) (fun _ => rfl), ht.dead,
         l ++ [.op c k (t.chans c).events (t.chans c).index], by simp [emit, hl], ?_⟩
       intro e he
       rcases List.mem_append.1 he with h1 | h1
@@ -324,7 +316,7 @@ theorem epStruct_applyOp {s : State} (hbe : s.be = .epoll) (h : EpStruct s) (c :
           unfold EpLocal at hl
           rw [if_neg (by simp [hr.1])] at hl
           have : EpOk s (setChan s c {}) := by
-            refine ⟨h.local c ?_ ?_ ?_ (fun e => e) ?_, rfl, [], by simp [setChan], by simp⟩
+            refine ⟨h.local c ?_ ?_ ?_ ?_, rfl, [], by simp [setChan], by simp⟩
             · intro x hx; simp [setChan, hx]
             · intro fd _; rfl
             · intro fd _; rfl
@@ -334,7 +326,7 @@ theorem epStruct_applyOp {s : State} (hbe : s.be = .epoll) (h : EpStruct s) (c :
           rw [hd] at this; exact this
         | _ => simp [OpKind.isUpdate] at hk
     · rw [applyOp_reject hd hacc]
-      exact ⟨h.congr rfl rfl rfl (fun _ => rfl) (fun _ => rfl) (fun _ => rfl), hd, [.reject c k], rfl,
+      exact ⟨h.congr rfl rfl (fun _ => rfl) (fun _ => rfl) (fun _ => rfl), hd, [.reject c k], rfl,
         by simp [Ev.isFailure, Ev.isCtlFailure, Ev.isAbort]⟩
 
 
@@ -353,12 +345,12 @@ theorem epGood_frame (s t : State) (f : Frame s t) (h : EpGood s) : EpGood t :=
 
 theorem epGood_cb (s t : State) (q : CbStep s t) (h : EpGood s) : EpGood t := by
   obtain ⟨c, k, _, _, _, rfl⟩ := q
-  exact ⟨h.1, h.2.congr rfl rfl rfl (fun _ => rfl) (fun _ => rfl) (fun _ => rfl)⟩
+  exact ⟨h.1, h.2.congr rfl rfl (fun _ => rfl) (fun _ => rfl) (fun _ => rfl)⟩
 
 theorem epGood_init : EpGood (init .epoll) := by
   have h0 : EpGood (empty .epoll) := ⟨rfl, epStruct_empty⟩
   have h2 := epGood_applyOp _ wakeChan .enableR (epGood_applyOp _ timerChan .enableR h0)
-  exact ⟨h2.1, h2.2.congr rfl rfl rfl (fun _ => rfl) (fun _ => rfl) (fun _ => rfl)⟩
+  exact ⟨h2.1, h2.2.congr rfl rfl (fun _ => rfl) (fun _ => rfl) (fun _ => rfl)⟩
 
 theorem epGood_run (ins : List In) : EpGood (run (init .epoll) ins) :=
   ReachF.preserves epGood_applyOp epGood_frame epGood_cb (reach_run ins _) epGood_init
@@ -427,11 +419,11 @@ theorem epAlive_run (ins : List In) (henv : Along epEnvOk (init .epoll) ins) :
     have hd : t.dead = s.dead := by obtain ⟨hh, c, rfl⟩ := q; rfl
     exact ⟨epGood_frame s t q.frame h.1, hd.trans h.2⟩
   · intro s t q h
-    exact ⟨epGood_cb s t q h.1, (frame_of_cbStep q).2.2.2.2.2.2.trans h.2⟩
+    exact ⟨epGood_cb s t q h.1, (frame_of_cbStep q).2.2.2.2.2.trans h.2⟩
   · intro s ready nret h _ henv
     exact epAlive_poll s ready nret h henv
   · intro s it act hh c h
-    exact ⟨⟨h.1.1, h.1.2.congr rfl rfl rfl (fun _ => rfl) (fun _ => rfl) (fun _ => rfl)⟩, h.2⟩
+    exact ⟨⟨h.1.1, h.1.2.congr rfl rfl (fun _ => rfl) (fun _ => rfl) (fun _ => rfl)⟩, h.2⟩
   · refine ⟨epGood_init, ?_⟩
     have h1 := (epStruct_applyOp (s := empty .epoll) rfl epStruct_empty timerChan .enableR)
     have h2 := (epStruct_applyOp (s := applyOp (empty .epoll) timerChan .enableR)
@@ -441,7 +433,7 @@ theorem epAlive_run (ins : List In) (henv : Along epEnvOk (init .epoll) ins) :
 
 /-! ### refinement: the kernel's interest list is the specification map -/
 
-theorem epStruct_refines {s : State} (hbe : s.be = .epoll) (h : EpStruct s) (hb : s.blind = false)
+theorem epStruct_refines {s : State} (hbe : s.be = .epoll) (h : EpStruct s)
     (fd : Int) (mask : Nat) : watched s fd mask ↔ specWatched s fd mask := by
   simp only [watched, hbe, specWatched]
   constructor
@@ -456,9 +448,7 @@ theorem epStruct_refines {s : State} (hbe : s.be = .epoll) (h : EpStruct s) (hb 
         rcases hl.2 with ⟨_, h2, h3⟩ | ⟨_, _, h3⟩
         · have hm : mask = (s.chans fd.toNat).events := Option.some.inj h2
           refine ⟨fd.toNat, hfc, ha, hm.symm, ?_⟩
-          intro h0
-          have := h3 (hm ▸ h0)
-          rw [hb] at this; exact absurd this (by simp)
+          exact hm ▸ h3
         · exact absurd h3 (by simp)
       · exact absurd hl.2.2.2 (by simp)
     · have := (h.other fd (fun c e => hfd (by rw [e]; unfold fdOf; omega))).2
